@@ -333,15 +333,31 @@ Qed.
 (* ------------------------------------------------------------------ *)
 (** * pkt-line *)
 
+Lemma hexval_hexchar d : d < 16 -> hexval (hexchar d) = Some d.
+Proof.
+  intros Hd.
+  assert (H : (match hexval (hexchar d) with Some x => x =? d | None => false end) = true).
+  { revert d Hd. apply (belowN_spec 16). vm_compute. reflexivity. }
+  destruct (hexval (hexchar d)) as [x|]; [|discriminate]. apply N.eqb_eq in H. now subst.
+Qed.
+
 Lemma hex4_roundtrip m : m < 65536 -> hex4val (hexw 4 m) = Some m /\ length (hexw 4 m) = 4%nat.
 Proof.
-  intros Hm.
-  assert (H : (match hex4val (hexw 4 m) with Some u => u =? m | None => false end) = true).
-  { revert m Hm. apply (belowN_spec 65536). vm_compute. reflexivity. }
-  split.
-  - destruct (hex4val (hexw 4 m)) as [u|]; [|discriminate]. apply N.eqb_eq in H. now subst.
-  - clear. cbn [hexw]. rewrite !app_length. reflexivity.
+  intros Hm. split; [|cbn [hexw]; rewrite !app_length; reflexivity].
+  cbn [hexw app]. unfold hex4val.
+  pose proof (N.div_mod m 16 ltac:(lia)) as E0. pose proof (N.mod_lt m 16 ltac:(lia)) as B0.
+  pose proof (N.div_mod (m / 16) 16 ltac:(lia)) as E1. pose proof (N.mod_lt (m / 16) 16 ltac:(lia)) as B1.
+  pose proof (N.div_mod (m / 16 / 16) 16 ltac:(lia)) as E2.
+  pose proof (N.mod_lt (m / 16 / 16) 16 ltac:(lia)) as B2.
+  pose proof (N.mod_lt (m / 16 / 16 / 16) 16 ltac:(lia)) as B3.
+  assert (Hq : m / 16 / 16 / 16 < 16).
+  { repeat (apply N.div_lt_upper_bound; [lia|]). lia. }
+  rewrite !hexval_hexchar by assumption. f_equal.
+  rewrite (N.mod_small (m / 16 / 16 / 16) 16) by assumption. lia.
 Qed.
+
+Lemma firstn_len (l : bytes) n : length l = n -> firstn n l = l.
+Proof. intros <-. apply firstn_all. Qed.
 
 Theorem pktline_roundtrip s : wf_pktline s ->
   exists b, encode_pktline s = Some b /\ forall rest, decode_pktline (b ++ rest) = Some (s, rest).
@@ -353,7 +369,8 @@ Proof.
     destruct (hex4_roundtrip _ Hm) as [Hh Hl].
     unfold encode_pktline. subst t. cbv iota. set (t := x :: s) in *.
     unfold fmt_hex4. apply N.ltb_lt in Hm. rewrite Hm.
-    rewrite <- Hl at 1. rewrite firstn_all.
+    replace (firstn 4 (hexw 4 (len t + 1))) with (hexw 4 (len t + 1))
+      by (symmetry; apply firstn_len; exact Hl).
     eexists. split; [reflexivity|]. intros rest.
     unfold decode_pktline. rewrite <- app_assoc. rewrite (take_app_n 4) by assumption.
     rewrite Hh.
@@ -364,13 +381,28 @@ Proof.
     rewrite firstn_app, Nat.sub_diag, firstn_all. cbn [firstn]. now rewrite app_nil_r.
 Qed.
 
-(** WritePktLine has no length guard: 65535 bytes are written under the header "1000" and
-    read back as 4095 bytes.  (The function has no non-test caller.) *)
-Lemma pktline_overlimit_corrupts :
-  let s := repeat 112 (N.to_nat 65535) in
-  exists b, encode_pktline s = Some b /\ firstn 4 b = [49; 48; 48; 48] /\
-            exists s' rest, decode_pktline b = Some (s', rest) /\ len s' = 4095.
+Lemma take_firstn : forall n (b : bytes), (n <= length b)%nat -> take n b = Some (firstn n b, skipn n b).
 Proof.
-  cbv zeta. eexists. split; [reflexivity|]. split; [vm_compute; reflexivity|].
-  eexists. eexists. split; [vm_compute; reflexivity|]. vm_compute. reflexivity.
+  induction n as [|n IH]; intros b Hn; [reflexivity|].
+  destruct b as [|x b]; [cbn in Hn; lia|]. cbn [take firstn skipn]. rewrite IH by (cbn in Hn; lia). reflexivity.
+Qed.
+
+(** WritePktLine has no length guard: ANY string of 65535 bytes is written under the header
+    "1000" and reads back as its first 4095 bytes.  (The function has no non-test caller.) *)
+Lemma pktline_overlimit_corrupts s : len s = 65535 ->
+  exists b, encode_pktline s = Some b /\ firstn 4 b = [49; 48; 48; 48] /\
+    exists rest, decode_pktline b = Some (firstn (N.to_nat 4095) s, rest).
+Proof.
+  intros Hs. destruct s as [|x s]; [cbn in Hs; lia|]. set (t := x :: s) in *.
+  unfold encode_pktline. subst t. cbv iota. set (t := x :: s) in *.
+  rewrite Hs. change (fmt_hex4 (65535 + 1)) with [49; 48; 48; 48; 48].
+  cbn [firstn]. eexists. split; [reflexivity|]. split; [reflexivity|].
+  unfold decode_pktline. cbn [app take]. change (hex4val [49; 48; 48; 48]) with (Some 4096).
+  cbv iota. change (4096 =? 0) with false. cbv iota.
+  assert (Hl : length t = N.to_nat 65535) by (unfold len in Hs; lia).
+  rewrite take_firstn by (rewrite app_length, Hl; lia).
+  eexists. f_equal. f_equal.
+  rewrite firstn_firstn. rewrite firstn_app.
+  replace (Nat.min (N.to_nat 4096 - 1) (N.to_nat 4096)) with (N.to_nat 4095) by lia.
+  replace (N.to_nat 4095 - length t)%nat with 0%nat by lia. cbn [firstn]. now rewrite app_nil_r.
 Qed.
